@@ -98,9 +98,10 @@ CHECKS["C08"] = dict(
     level="exploration",
     rule="rapid-generated runs of 2..40 (thorough 300) relayed connections over key lists with all four ciphers, then 1..12 reflections of recorded server->client streams presented as client streams "
          "(verbatim / truncated at 50..120 / extended), replay cache on and off. All server salts pairwise distinct; reflections for salts >= 20 bytes must end ERR_REPLAY_SERVER with no dial, no bytes, probe report. "
+         "(Concurrent) 2..16 goroutines relay 20..300 connections each under the same 1..3 keys at once (one salt generator serves all connections of a key); every recorded response must decrypt, carry a distinct salt and be refused when reflected. "
          "Non-trivial = at least one reflection under a cipher with a salt of >= 20 bytes. Distinct = canonical case JSON.",
     assumptions=["aes-128-gcm (16-byte salt) is exempt as the statement says", "in-memory connections"],
-    units=[unit("props", ["Salts"], "C08")],
+    units=[unit("props", ["Salts", "Concurrent"], "C08", crash_is_violation=True)],
 )
 CHECKS["C20"] = dict(
     level="exploration",
